@@ -395,7 +395,7 @@ def check(P, R):
 
     # ---- g
     st = P.func(f'{RD}:RadiDict._set')
-    mcalls = [c for c in walk_shallow(st.node) if isinstance(c, ast.Call) and dotted(c.func) == 'self._make_route']
+    mcalls = T.calls_to(st, 'self._make_route')
     R.require(mcalls, '_set: _make_route call not found')
     for c in mcalls:
         a = c.args
@@ -491,7 +491,7 @@ def check_idx_pairing(P, R, rid):
     # whole-node rebuilds: _split (idx= keyword with children=[node]), _try_merge (pnode[:] = child)
     sp = cls_.methods.get('_split')
     R.require(sp is not None, 'RadiDict._split missing')
-    mk = [c for c in walk_shallow(sp.node) if isinstance(c, ast.Call) and dotted(c.func) == 'self._make_node']
+    mk = T.calls_to(sp, 'self._make_node')
     ok = False
     for c in mk:
         kw = {k.arg: k.value for k in c.keywords}
